@@ -139,6 +139,11 @@ pub trait Prop: Sync {
     fn assumptions(&self) -> Vec<String> {
         vec![]
     }
+    /// whether a case that does not return is a violation of this property (C03, C04) or merely
+    /// an inconclusive, discarded case (everything else)
+    fn hang_is_violation(&self) -> bool {
+        false
+    }
     /// class labels that must occur at least once per run (generator health)
     fn required_classes(&self, _tier: Tier) -> Vec<&'static str> {
         vec![]
